@@ -29,7 +29,8 @@ RULE = (
     "constants, empty sum, multi-digit qubit indices, duplicate and zero-coefficient terms, the identical term "
     "object twice, sums built from tuples; integer arrays and tallies beyond 2**53 up to the int64 limits "
     "and narrow dtypes; savers annotated AnyPath are given str / pathlib / bytes paths (also non-ASCII names), "
-    "loaders a path, a caller-opened file (default, utf-8, ascii, latin-1) or a StringIO. Histories: observe "
+    "loaders a path, a caller-opened file (default, utf-8, ascii, latin-1), a StringIO, or another kind of open "
+    "file (codecs.open, tempfile.NamedTemporaryFile, TextIOWrapper over BytesIO, a bare object with read()). Histories: observe "
     "(convert / save / save a set with identical, equal and term-sharing members / print+parse), then reassign a "
     "public attribute (term.coefficient, sum.terms, bitstrings, values, frames, precision, layers, ...), modify "
     "it or an earlier returned dictionary / loaded object in place, observe again (same or another path), "
@@ -883,9 +884,38 @@ def _lists(frames):
 
 def _load(rng, loader, path):
     """call a loader with a path, a caller-opened file (several encodings) or a StringIO"""
-    how = rng.choice(["path", "path", "file", "file", "file-enc", "stringio"])
+    how = rng.choice(["path", "path", "file", "file", "file-enc", "stringio", "duck", "codecs", "tempfile", "wrapper"])
     if how == "path":
         return loader(path), how
+    if how in ("duck", "codecs", "tempfile", "wrapper"):
+        # open files that are not io.IOBase instances / not what open() returns: anything with read() is an open file
+        # to the library's Readable protocol (and to json.load)
+        with open(path, "rb") as f:
+            raw = f.read()
+        if how == "duck":
+            class _Reader:
+                def __init__(self, text):
+                    self._text, self._done = text, False
+
+                def read(self, size=-1):
+                    if self._done:
+                        return ""
+                    self._done = True
+                    return self._text
+            return loader(_Reader(raw.decode("utf-8"))), how
+        if how == "codecs":
+            import codecs
+
+            with codecs.open(path, "r", encoding="utf-8") as f:
+                return loader(f), how
+        if how == "tempfile":
+            import tempfile
+
+            with tempfile.NamedTemporaryFile("w+", encoding="utf-8", suffix=".json") as f:
+                f.write(raw.decode("utf-8"))
+                f.seek(0)
+                return loader(f), how
+        return loader(io.TextIOWrapper(io.BytesIO(raw), encoding="utf-8")), how
     if how == "file":
         with open(path, "r") as f:
             return loader(f), how
